@@ -542,6 +542,7 @@ theorem lookup_subCharsetStep (k : PStr) (hk : k ≠ ofS "charset") (l : List (P
     lookupAttr k (subCharsetStep l) = lookupAttr k l := by
   unfold subCharsetStep
   split
+  · rfl
   · exact lookup_setAttr_ne k _ _ hk l
   · rfl
 
@@ -549,10 +550,41 @@ theorem lookup_subContentStep (k : PStr) (hk : k ≠ ofS "content") (l : List (P
     lookupAttr k (subContentStep l) = lookupAttr k l := by
   unfold subContentStep
   split
+  · rfl
   · split
     · exact lookup_setAttr_ne k _ _ hk l
     · rfl
   · rfl
+
+theorem subCharsetStep_some (attrs : List (PStr × AttrVal)) (old : AttrVal)
+    (h : lookupAttr (ofS "charset") attrs = some old) (hn : old ≠ .novalue) :
+    subCharsetStep attrs = setAttr (ofS "charset") (.charsetMeta old.str) attrs := by
+  unfold subCharsetStep
+  rw [h]
+  cases old <;> first | rfl | exact absurd rfl hn
+
+theorem subCharsetStep_none (attrs : List (PStr × AttrVal)) (h : lookupAttr (ofS "charset") attrs = none) :
+    subCharsetStep attrs = attrs := by
+  unfold subCharsetStep; rw [h]
+
+theorem subContentStep_some (attrs : List (PStr × AttrVal)) (ct he : AttrVal)
+    (h1 : lookupAttr (ofS "content") attrs = some ct) (hn : ct ≠ .novalue)
+    (h2 : lookupAttr (ofS "http-equiv") attrs = some he) (h3 : isContentType he = true) :
+    subContentStep attrs = setAttr (ofS "content") (.contentMeta ct.str) attrs := by
+  unfold subContentStep
+  rw [h1, h2]
+  cases ct <;> first | exact absurd rfl hn | (simp only [h3, if_true])
+
+theorem subContentStep_no_content (attrs : List (PStr × AttrVal)) (h : lookupAttr (ofS "content") attrs = none) :
+    subContentStep attrs = attrs := by
+  unfold subContentStep; rw [h]
+
+theorem subContentStep_no_equiv (attrs : List (PStr × AttrVal)) (h : lookupAttr (ofS "http-equiv") attrs = none) :
+    subContentStep attrs = attrs := by
+  unfold subContentStep; rw [h]
+  cases lookupAttr (ofS "content") attrs with
+  | none => rfl
+  | some ct => cases ct <;> rfl
 
 theorem subGo_drop (repl : PStr → PStr) : ∀ (l : PStr) (b : Bool), subGo repl l.length b l = [] := by
   intro l
